@@ -9,6 +9,20 @@ import numpy as np
 from harness.core import quiet
 
 
+def _mrg(ctx, name, a, b, tol):
+    """record the largest observed deviation relative to the tolerance of a floating-point comparison (scale-free, like vrel)"""
+    try:
+        a, b = np.asarray(a, dtype=float).ravel(), np.asarray(b, dtype=float).ravel()
+        if a.shape != b.shape or a.size == 0 or not (np.all(np.isfinite(a)) and np.all(np.isfinite(b))):
+            return
+        sc = max(float(np.max(np.abs(a))), float(np.max(np.abs(b))))
+        dev = 0.0 if sc == 0 else float(np.max(np.abs(a - b))) / sc
+        m = ctx.extra_cov.setdefault("margins_dev_over_tol", {})
+        m[name] = max(m.get(name, 0.0), dev / tol)
+    except Exception:
+        pass
+
+
 def _same(a, b):
     a, b = np.asarray(a), np.asarray(b)
     if a.shape != b.shape:
@@ -253,6 +267,7 @@ def _psf1_job(ctx, H, bump, o_psf, o_mat, desc, low, s_eff, p_eff, direct, e2e, 
             elif o_psf.startswith("P="):
                 r = H.kv(o_psf)
                 Pm = H.fvec(r["P"])
+                _mrg(ctx, "psf1-builder(1e-12)", direct[1], Pm, 1e-12)
                 if direct[1].shape != Pm.shape or not H.vrel(direct[1], Pm, 1e-12) or np.any(np.isnan(direct[1])):
                     ctx.disagree(key + ":builder", desc, r["P"][:120], [float(v) for v in direct[1][:7]], "PSF array")
                     oracle(":builder", direct[1])
@@ -277,6 +292,7 @@ def _psf1_job(ctx, H, bump, o_psf, o_mat, desc, low, s_eff, p_eff, direct, e2e, 
                 ctx.fail(key + ":matrix", desc, "a constructed problem", "raises " + e2e[1], "the constructor raises for a documented named PSF")
             else:
                 Am = H.fmat(H.kv(o_mat)["asm"], desc["dim"])
+                _mrg(ctx, "named-psf-matrix(1e-12)", e2e[1], Am, 1e-12)
                 if not H.meq(e2e[1], Am, 1e-12):
                     ctx.disagree(key + ":matrix", desc, o_mat[:160], str(e2e[1].tolist())[:160], "stored matrix for a named PSF")
                     # oracle: the stored matrix is assembled from the documented PSF by scipy called directly (rows = conv(e_i): known transposition)
@@ -363,6 +379,7 @@ def _psf2_job(ctx, H, bump, o, desc, low, size, par, e2e, cdir):
         elif o.startswith("P="):
             r = H.kv(o)
             Pm = H.fmat(r["P"], size)
+            _mrg(ctx, "psf2-builder(1e-12)", e2e[1], Pm, 1e-12)
             if e2e[1].shape != Pm.shape or np.any(np.isnan(e2e[1])) or not H.vrel(e2e[1].ravel(), Pm.ravel(), 1e-12):
                 ctx.disagree(key + ":builder", desc, r["P"][:160], str(e2e[1].tolist())[:160], "Miscellaneous['PSF']")
                 oracle2(e2e[1])
@@ -392,6 +409,8 @@ def _doc_defocus_cb(ctx, H, outs, jobs):
         for nd, o in ((1, outs[2 * k]), (2, outs[2 * k + 1])):
             ref = H.doc_defocus(size, R, nd, size // 2)
             got = None if o == "nan" else (H.fvec(H.kv(o)["P"]) if nd == 1 else H.fmat(H.kv(o)["P"], size))
+            if ref is not None and got is not None:
+                _mrg(ctx, "doc-defocus(1e-13)", ref, got, 1e-13)
             if (ref is None) != (got is None) or (ref is not None and not np.allclose(ref, got, rtol=1e-13, atol=0)):
                 ctx.disagree(f"tie:doc-defocus:{nd}d", {"size": size, "R": R}, o[:120], None if ref is None else str(ref.tolist())[:120], "the two transcriptions of the documented disc differ")
 
@@ -553,6 +572,7 @@ def phantom_stream(ctx, cuqi, stated):
                 for i_, alts in st[2].items():
                     if i_ < xs.size and any(abs(xs[i_] - a_) <= 1e-15 for a_ in alts):
                         ref[i_] = xs[i_]
+                _mrg(ctx, "stated-phantom(1e-12)", xs, ref, 1e-12)
                 if xs.shape != ref.shape or not H.vrel(xs, ref, 1e-12):
                     if exact:
                         ctx.disagree(tkey, desc, list(ref[:10]), list(xs[:10]), "exactSolution vs the model's phantom")
@@ -637,6 +657,7 @@ def grid_stream(ctx, cuqi, B):
                 if got is None:
                     continue
                 want = H.fvec(r[mk])
+                _mrg(ctx, "grids(1e-13)", got, want, 1e-13)
                 if got.shape != want.shape or not H.vrel(got, want, 1e-13):
                     key = f"tie:{name}:grid:{what}"
                     ctx.disagree(key, desc, r[mk][:160], [float(v) for v in got[:8]], f"{what} vs the constructor's linspace expression in exact arithmetic")
@@ -647,6 +668,7 @@ def grid_stream(ctx, cuqi, B):
             if name == "Abel1D":
                 t = H.fvec(r["t"])
                 ref = np.sin(t * np.pi) * np.exp(-2 * t)
+                _mrg(ctx, "abel-exactSolution-nodes(1e-12)", impl["xs"], ref, 1e-12)
                 if impl["xs"].shape != ref.shape or not H.vrel(impl["xs"], ref, 1e-12):
                     ctx.disagree("tie:Abel1D:exactSolution:nodes", desc, [float(v) for v in ref[:6]], [float(v) for v in impl["xs"][:6]], "exactSolution vs sin(pi t) exp(-2t) on the model's quadrature nodes")
                     ctx.fail("tie:Abel1D:exactSolution:nodes", desc, [float(v) for v in ref[:6]], [float(v) for v in impl["xs"][:6]],
@@ -748,6 +770,8 @@ def setter_histories(ctx, cuqi, B):
                     ctx.disagree("tie:" + key, d, f"object #{oid}", type(now[k]).__name__, f"{k} after the history is not the object the state machine gives")
                     ctx.fail("tie:" + key, d, f"the object assigned last (#{oid})", "another object",
                              f"after the call history, {k} handed out by the problem is not the likelihood's / the last assigned object: model, data, likelihood, prior no longer refer to the same objects")
+            if lp is not None and ll is not None:
+                _mrg(ctx, "setter-logd(1e-9)", [lp], [ll], 1e-9)
             if lp is not None and ll is not None and np.isfinite(lp) and np.isfinite(ll) and not H.close(lp, ll, 1e-9):
                 ctx.fail(f"{name}:setters:posterior.logd", d, ll, lp, "posterior.logd is not the current likelihood's log-likelihood plus the current prior's log-density")
     B.add(lines, cb)
@@ -927,3 +951,87 @@ def caller_mutation_histories(ctx, cuqi):
             if "/cuqi/" not in traceback.format_exc():
                 raise
             ctx.fail(f"{name}:caller-mutation:crash", desc, "the history runs", repr(e)[:160], "building the problem / modifying the caller's arrays raised")
+
+
+def option2d_stream(ctx, cuqi, B):
+    """random option records for Deconvolution2D with zero, one or several undocumented / ill-shaped options at once:
+    the constructor raises iff `deconv2dRefusal` says so (tie; the exception class is only noted)"""
+    import harness.props.c17 as H
+    from cuqi.testproblem import Deconvolution2D
+    rng = ctx.rng
+    lines, jobs = [], []
+    library = {"astronaut", "camera", "cat", "cookie", "grains", "p_power", "satellite", "shepp_logan", "threephases"}     # documented phantom library
+    for _ in range(60 * (3 if ctx.tier == "thorough" else 1)):
+        faulty = rng.random() < 0.6
+        def pick(good, bad, p_bad=0.3):
+            return rng.choice(bad) if (faulty and rng.random() < p_bad) else rng.choice(good)
+        bc = pick(["periodic", "zero", "Neumann", "MIRROR", "nearest"], ["reflect", "dirichlet", "symmetric", "wrap"], 0.25)
+        psf_kind = pick(["Q", "S"], ["N", "O", "Sbad"], 0.3)
+        pz = False
+        if psf_kind == "Q":
+            psf_tok, psf = "Q", np.array([[0.0, 1, 0], [2, 3, 1], [0, 4, 0]])[:rng.choice([2, 3]), :][:, :0 or None]
+            psf = psf[:min(psf.shape), :min(psf.shape)].copy()
+        elif psf_kind == "N":
+            psf_tok, psf = "N", np.ones((2, 3))
+        elif psf_kind == "O":
+            psf_tok, psf = "O", rng.choice([2.0, [[1.0]]])
+        else:
+            nm = rng.choice(["gauss", "Moffat", "defocus", "DEFOCUS"] if psf_kind == "S" else ["gaussian", "box", "sinc"])
+            psf_tok, psf = "S" + nm, nm
+            pz = nm.lower() == "defocus" and rng.random() < 0.3
+        ph_kind = pick(["I2", "V", "S", "I2r"], ["I3", "Vbad", "O", "Sbad"], 0.3)
+        if ph_kind == "I2":
+            ph_tok, ph = "I2", np.arange(1.0, 17).reshape(4, 4)
+        elif ph_kind == "I2r":
+            ph_tok, ph = "I2", np.arange(1.0, 10).reshape(3, 3)
+        elif ph_kind == "I3":
+            ph_tok, ph = "I3", np.ones((2, 2, 2))
+        elif ph_kind == "V":
+            ln = rng.choice([9, 16, 4])
+            ph_tok, ph = f"V{ln}", np.arange(1.0, ln + 1)
+        elif ph_kind == "Vbad":
+            ln = rng.choice([8, 15, 12])
+            ph_tok, ph = f"V{ln}", np.arange(1.0, ln + 1)
+        elif ph_kind == "O":
+            ph_tok, ph = "O", rng.choice([[[1.0, 2], [3, 4]], 2.0])
+        else:
+            nm = rng.choice(["cookie", "Satellite", "camera", "shepp-logan"] if ph_kind == "S" else ["cookies", "phantom", "sat"])
+            ph_tok, ph = f"S{int(nm.lower().replace('-', '_') in library)}{nm}", nm
+        noise = pick(["gaussian", "Gaussian", "scaledGaussian"], ["poisson", "gauss"], 0.25)
+        kw = dict(dim=4, PSF=psf, PSF_size=3, BC=bc, phantom=ph, noise_type=noise, noise_std=0.25)
+        if pz:
+            kw["PSF_param"] = 0
+        with quiet():
+            try:
+                with H.scripted(450):
+                    Deconvolution2D(**kw)
+                got = None
+            except Exception as e:
+                got = f"{type(e).__name__}: {str(e)[:80]}"
+        if got is not None and "infs or NaNs" in got:
+            continue
+        desc = {"problem": "Deconvolution2D", "dim": 4, "BC": bc, "PSF": psf_tok, "PSF_param==0": pz, "phantom": ph_tok, "noise_type": noise}
+        lines.append(f"d2opts {bc} {psf_tok} {int(pz)} {ph_tok} {noise}")
+        jobs.append((desc, got))
+
+    def cb(outs):
+        for (desc, got), o in zip(jobs, outs):
+            ctx.case("option-decision-2d", desc)
+            k = "accept" if o == "ok" else o
+            ctx.extra_cov.setdefault("option_decision_2d", {}).setdefault(k, 0)
+            ctx.extra_cov["option_decision_2d"][k] += 1
+            key = "tie:Deconvolution2D:options"
+            if o == "ok" and got is not None:
+                ctx.disagree(key, desc, "constructed", got, "the constructor raised for an option record the decision function accepts")
+                ctx.fail(key, desc, "a constructed problem (every option is a documented one)", got, "the constructor refuses a documented option combination")
+            elif o.startswith("raises:") and got is None:
+                if desc["PSF_param==0"] and o == "raises:IndexError":
+                    continue
+                ctx.disagree(key, desc, o, "constructed", "the constructor accepted an option record the decision function refuses")
+                ctx.fail(key, desc, "an exception (an option is not one of the documented names / shapes)", "constructed", "the constructor accepts an undocumented or ill-shaped option")
+            elif o.startswith("raises:") and got is not None and not got.startswith(o.split(":", 1)[1]):
+                ctx.extra_cov["option_decision_2d"]["class-differs"] = ctx.extra_cov["option_decision_2d"].get("class-differs", 0) + 1
+                ctx.note(f"2-D option refusal class: model {o}, code {got} at {desc}")
+            elif not (o == "ok" or o.startswith("raises:")):
+                ctx.note(f"driver refused d2opts line at {desc}: {o}")
+    B.add(lines, cb)
